@@ -244,7 +244,7 @@ impl Property for C12 {
     fn rule(&self) -> String {
         "1-4 files assembled from line bodies (empty, ASCII, non-ASCII, embedded CR, > 8 KiB, > 64 KiB, optionally one invalid-UTF-8 line) and terminators (LF, CRLF, none at the very end); \
          statement kinds: SELECT input, COUNT(*)+ARRAY_AGG(input), a join that loads the bytes as the joined file, a selective table. Oracle: model line splitter (split at LF, one CR before it \
-         tolerated either way, unterminated last line included): the query sees the lines of file 1, then file 2, ... exactly once in order; total_lines = number of lines; a run over several \
+         tolerated either way - but the same way in the queried files and in the joined file -, unterminated last line included): the query sees the lines of file 1, then file 2, ... exactly once in order; total_lines = number of lines; a run over several \
          LF-terminated files = a run over their concatenation; after an invalid line either every later well-formed line is still processed or an error is reported. Per case, for <= 6 lines, \
          all 2^(n-1) splits into files are tried. Non-trivial: >= 2 files, or a final line without newline, or a CRLF line, or an invalid line followed by >= 1 valid line; distinct by case."
             .to_string()
@@ -358,6 +358,24 @@ impl Property for C12 {
                 return Err(Failure::new(
                     format!("concat-differs: kind{}", case.kind),
                     format!("{} files give {} lines, their concatenation gives {} lines", case.files.len(), observed.lines.len(), single.lines.len()),
+                ));
+            }
+        }
+
+        // 4. a CR in front of the LF is treated alike by the reader of the queried files and by the joined-file loader
+        let has_cr = all_specs.iter().any(|l| l.term == Term::CrLf || l.body_bytes().last() == Some(&b'\r'));
+        let inner_ok = case.files.iter().rev().skip(1).all(|f| f.last().map(|l| l.term != Term::None).unwrap_or(true));
+        if has_cr && !has_invalid && inner_ok {
+            obs.label("cr-consistency");
+            let concat: Vec<u8> = contents.iter().flat_map(|c| c.iter().copied()).collect();
+            let queried = run_kind(ctx, 0, &[concat.clone()])?;
+            let joined = run_kind(ctx, 2, &[concat])?;
+            obs.inner += 1;
+            if queried.lines != joined.lines {
+                let first = queried.lines.iter().zip(joined.lines.iter()).position(|(a, b)| a != b).unwrap_or(queried.lines.len().min(joined.lines.len()));
+                return Err(Failure::new(
+                    "cr-handling-differs: queried vs joined file",
+                    format!("the same bytes give different lines when read as the queried file and as the joined file; first difference at line {}: queried {:?}, joined {:?}", first, queried.lines.get(first), joined.lines.get(first)),
                 ));
             }
         }
